@@ -198,6 +198,14 @@ def call(px, st, name, t, args, fid, fn):
             else:
                 outs.extend(px.call_closure(s2, args[1], [px.pos_payload(s2, args[0])]))
         return outs
+    if n.endswith('option::Option::<T>::is_none_or'):
+        outs = []
+        for tag, s2 in px.decide_tag(st, args[0]):
+            if tag == 'neg':
+                outs.append((s2, TRUE))
+            else:
+                outs.extend(px.call_closure(s2, args[1], [px.pos_payload(s2, args[0])]))
+        return outs
     if n.endswith('option::Option::<T>::ok_or_else'):
         outs = []
         for tag, s2 in px.decide_tag(st, args[0]):
@@ -302,8 +310,11 @@ def call(px, st, name, t, args, fid, fn):
         return outs
     if n.endswith('option::Option::<T>::unwrap_or_default') or n.endswith('result::Result::<T, E>::unwrap_or_default'):
         outs = []
+        dty = str(t['dest']['ty'])
+        # <&[T] as Default>::default() and <&str as Default>::default() are the empty constant slice / string
+        dflt = ('cref', ('array', ())) if re.match(r"^&('\w+ )?\[[^;\]]*\]$", dty) else pure('default', (('ty', t['dest']['ty']),))
         for tag, s2 in px.decide_tag(st, args[0]):
-            outs.append((s2, px.pos_payload(s2, args[0]) if tag == 'pos' else pure('default', (('ty', t['dest']['ty']),))))
+            outs.append((s2, px.pos_payload(s2, args[0]) if tag == 'pos' else dflt))
         return outs
     if re.search(r'(option::Option::<T>|result::Result::<T, E>)::(unwrap|expect)$', n):
         outs = []
@@ -368,6 +379,17 @@ def call(px, st, name, t, args, fid, fn):
             if k == 0:
                 return [(st, ('adt', 'core::std::option::Option', 'None', ()))]
             return [(st, ('getres', subj, k - 1))]
+    if n.endswith('slice::<impl [T]>::split_first'):
+        # Some((&v[0], &v[1..])) iff the slice is not empty
+        subj = px.subject_of(st, args[0])
+        base, lo = (subj[1], subj[2]) if subj[0] == 'S' and subj[3] is None else (subj, 0)
+        outs = []
+        for b, s2 in px.decide_bool(st, ('bin', 'Ge', ('len', subj), INT(1))):
+            if b:
+                outs.append((s2, ('adt', 'core::std::option::Option', 'Some', (('tuple', (px.mkref(('I', base, INT(lo))), px.mkref(('S', base, lo + 1, None, False)))),))))
+            else:
+                outs.append((s2, ('adt', 'core::std::option::Option', 'None', ())))
+        return outs
     if n.endswith('slice::<impl [T]>::get') and args[1][0] == 'int':
         return [(st, ('getres', px.subject_of(st, args[0]), args[1][1]))]
     if re.search(r'impl std::ops::Index<I> for \[T; N\]>::index$|impl std::ops::Index<I> for \[T\]>::index$', n) and len(args) == 2 \
